@@ -76,6 +76,34 @@ def run(chk):
                 return f"dyn_loss = {found}"
             chk.run("C03.R1", site + "->dynamic_loss_apply", cfg, go, construct="dyn_loss formula (scalar residual)")
 
+    # an equation whose dynamic loss declares a heterogeneous parameter: the residual is evaluated with that parameter
+    # replaced by the value of the user's function at the row's point (the parameters "the equation is given")
+    for eq_type in ('ODE', 'statio_PDE', 'nonstatio_PDE'):
+        for pk in ((), ('th',)):
+            cfg = {"loss": eq_type, "net": "PINN", "residual_components": 2, "weight": "vector", "param_batch": list(pk),
+                   "heterogeneous_parameter": "nu"}
+            site = {"ODE": "jinns.loss._LossODE:LossODE.evaluate", "statio_PDE": "jinns.loss._LossPDE:LossPDEStatio.evaluate",
+                    "nonstatio_PDE": "jinns.loss._LossPDE:LossPDENonStatio.evaluate"}[eq_type]
+
+            def go(eq_type=eq_type, pk=pk):
+                from ..lossenv import user_fn, row_point, row_params, weighted_sq_sum, mean_over, prepend
+                h = user_fn('h_nu', 1, 'scalar0d')
+                het = {'nu': (lambda *a: h(*a[:-2])), 'th': None}
+                dyn = E.user_dynamic_loss(eq_type, 2, heterogeneity=het)
+                S = SingleLoss(E, eq_type, 'PINN', d=2, m_u=2, m_res=2, terms=('dyn',), wkind='vector', eq_keys=('nu', 'th'), dyn=dyn)
+                total, terms = S.evaluate(param_keys=pk)
+                found = canon(scalar_of(terms['dyn_loss'], 'dyn_loss'))
+                pts = row_point(eq_type, 2)
+                rp = row_params(E, S.params, pk)
+                eq = dict(rp.fields['eq_params'])
+                eq['nu'] = h(*pts)
+                R = dyn.fields['equation'](*pts, S.u, rp.replace_fields({'eq_params': eq}))
+                exp = canon(scalar_of(mean_over(("B",), prepend(weighted_sq_sum(S.w['dyn_loss'], R), "B")), 'spec'))
+                if found != exp:
+                    raise Violation("dyn_loss", str(found), str(exp))
+                return f"dyn_loss = {found}"
+            chk.run("C03.R1", site + "->dynamic_loss_apply", cfg, go, construct="dyn_loss formula (heterogeneous parameter)")
+
     # the dynamic term must not depend on the observation part of the batch (observed parameters belong to the
     # observation term only)
     for eq_type in ('ODE', 'statio_PDE', 'nonstatio_PDE'):
